@@ -388,6 +388,24 @@ def run_case(case):
                     name, len(r3.t), len(res.t), (r3.nfev, r3.njev, r3.nlu), (res.nfev, res.njev, res.nlu), r3.y[:, -1].tolist(), res.y[:, -1].tolist()), rep=name)
             out.validated += 1
         out.tags.append("jac-representations")
+    # a constant Jacobian is read at every call: the same array object, changed in place between two calls, gives
+    # what a fresh array with the new contents gives
+    if case["jac"] == "constant" and len(case["y0"]) >= 2:
+        _, _, const, _ = make_problem(case, Counter())
+        A = np.array(const, dtype=float)
+        try:
+            r1 = solve(case, Counter(), jac=A)
+            A *= 0.5
+            r2 = solve(case, Counter(), jac=A)
+            r3 = solve(case, Counter(), jac=A.copy())
+            if not (same_bits(r1.t, res.t) and same_bits(r1.y, res.y)):
+                out.v("jac-object-reuse", "a constant Jacobian passed as a named array object changes the result")
+            if not (same_bits(r2.t, r3.t) and same_bits(r2.y, r3.y)) or (r2.nfev, r2.nlu) != (r3.nfev, r3.nlu):
+                out.v("jac-object-reuse", "the same array object with new contents gives a different run than a fresh array with those contents: (nfev, nlu) %r vs %r, %d vs %d samples" % ((r2.nfev, r2.nlu), (r3.nfev, r3.nlu), len(r2.t), len(r3.t)))
+            out.validated += 1
+            out.tags.append("jac-object-reuse")
+        except BaseException as e:
+            out.v("jac-object-reuse", "ivp.solve_ivp raised %s when a constant Jacobian array was reused: %s" % (type(e).__name__, str(e)[:200]))
     if case["pattern"] is not None:
         n, mask = case["pattern"]["n"], case["pattern"]["mask"]
         P = np.array([[(mask >> (r * n + c)) & 1 for c in range(n)] for r in range(n)], dtype=float)
